@@ -367,6 +367,9 @@ class BaseTask(object, metaclass=abc.ABCMeta):
             allocated_workplace_list=[
                 workplace.ID for workplace in self.allocated_workplace_list
             ],
+            workplace_priority_rule=int(self.workplace_priority_rule),
+            worker_priority_rule=int(self.worker_priority_rule),
+            facility_priority_rule=int(self.facility_priority_rule),
             need_facility=self.need_facility,
             target_component=self.target_component.ID
             if self.target_component is not None
